@@ -173,6 +173,33 @@ Definition mk_policy_inferred (explicit : list (string * guard)) (effects : list
        end;
      effect_of := eff |}.
 
+(** * Guards found by search.
+
+    A written location without a guard of its own (a field of a struct that has no mutex or
+    several: the nodes of an intrusive list owned by a cache, a memo guarded by a second, leaf
+    mutex) fails the check under the inferred policy.  Because the soundness theorems hold for
+    every policy under which the check succeeds, the obligations may also SEARCH: each mutex
+    field of the packages ([gen_all_mutexes]) is tried as the guard of all such locations, and the
+    first candidate under which every entry point is well locked is taken.  Package-level
+    variables are excluded: no mutex of one object can guard state shared by all objects. *)
+Definition is_global (loc : string) : bool := String.eqb (struct_of loc) "global".
+
+Definition with_fallback (pol : policy) (m : string) : policy :=
+  {| guard_of := fun loc => match guard_of pol loc with
+                            | Some g => Some g
+                            | None => if is_global loc then None else Some (GuardedBy m)
+                            end;
+     effect_of := effect_of pol |}.
+
+Definition choose_policy (pol : policy) (funs : funtab) (entries : list string) (cands : list string) : policy :=
+  let rf := reachable_funs pol funs entries in
+  let es := map (fun n => match lookup_fun funs n with Some s => s | None => Unsupported ("missing function " ++ n) end) entries in
+  if well_locked_all pol rf es then pol
+  else match find (fun m => well_locked_all (with_fallback pol m) rf es) cands with
+       | Some m => with_fallback pol m
+       | None => pol
+       end.
+
 (** * C04: queries, schema reads and the LRU cache used concurrently on one open index *)
 Definition entries_C04 : list string := ["Index.Execute"; "Index.GetSchema"; "LRUCache.Get"; "LRUCache.Put"].
 
